@@ -507,12 +507,24 @@ def exec_reg(scn, serial, preempts, gran):
     from labrea import Option, Value, dataset
     progs = scn["threads"]
     n = len(progs)
-    if scn.get("via") == "dataset":
+    if scn.get("via") in ("dataset", "overload_list"):
         @dataset(dispatch="K")
         def target() -> int:
             return -1
         ov_of = lambda: target.overloads
         reg = target.register
+        if scn.get("via") == "overload_list":
+            # the decorator form with a LIST of aliases (here the same alias twice: one table entry, as the model has it);
+            # the implementations are built beforehand, outside the scheduled region
+            prebuilt = {}
+            for prog in progs:
+                for key, val in prog:
+                    def impl(_v=val) -> int:
+                        return _v
+                    prebuilt[(key, val)] = dataset(impl)
+
+            def reg(key, value):
+                target.overload([key, key])(prebuilt[(key, value.value)])
     else:
         target = OV.Overloaded(Option("K"), {}, Value(-1))
         ov_of = lambda: target
@@ -1021,6 +1033,10 @@ def scenarios(rng: random.Random, thorough: bool) -> List[Tuple[str, Dict[str, A
          {"kind": "reg", "via": "overloaded", "threads": [[[1, 10]], [[2, 20]]]}),
         ("b2 three threads Dataset.register",
          {"kind": "reg", "via": "dataset", "threads": [[[1, 10]], [[2, 20]], [[3, 30]]]}),
+        ("b4 the list-of-aliases decorator form from two threads",
+         {"kind": "reg", "via": "overload_list", "threads": [[[1, 10], [2, 20]], [[3, 30]]]}),
+        ("b5 list-of-aliases form against plain register",
+         {"kind": "reg", "via": "overload_list", "threads": [[[1, 10]], [[2, 20]], [[3, 30]]]}),
         ("b3 two registrations each",
          {"kind": "reg", "via": "overloaded", "threads": [[[1, 10], [2, 20]], [[3, 30], [4, 40]]]}),
         ("c1 two evaluations with different options",
